@@ -14,7 +14,7 @@ CLAIMED = {
     "C12": ("cg", "§3 C12",
             "seeded search over (HPD system, preconditioner, callback forms and return styles incl. alias-returning and "
             "buffer-reusing callbacks, other solver instances running inside callbacks, caller arrays narrower than the "
-            "data, caller schedule of update/done/peek incl. overruns past done(), curvature fault at the k-th operator "
+            "data and data narrower than the caller's arrays, caller schedule of update/done/peek incl. overruns past done(), curvature fault at the k-th operator "
             "call); every update of every session is judged against a dense Krylov-optimal reference, breakdown "
             "behaviour under injected non-positive curvature",
             "sampling, not enumeration; dense float64 reference trusted; tolerance tied to a textbook PCG run on the same instance"),
@@ -30,7 +30,7 @@ CLAIMED = {
     "C14": ("lls", "§3 C14",
             "seeded search over the option cross-product of LinearLeastSquares under simulated RNG history, clock and "
             "progress stream, with operator objects shared with an earlier app and an operator that fails once mid-run "
-            "(caller resumes run()); objective gap to a KKT-certified optimum, ledger over y/z/captured arrays after "
+            "(caller resumes run()), view-returning G operators, integer-typed observations; objective gap to a KKT-certified optimum, ledger over y/z/captured arrays after "
             "every update, twin runs under different RNG histories and under absorbed stream/clock faults",
             "sampling; certified dense reference; iteration budgets fixed per solver"),
     "C15": ("stop", "§3 C15",
